@@ -87,7 +87,7 @@ fn resolve_some_name_ptr_mut<T: InterpreterTrait>(
         }
         Path::Property(parent_name_ptr, property_name) => {
             let parent_variant = resolve_some_name_ptr_mut(interpreter, *parent_name_ptr)?;
-            Ok(resolve_property_mut(parent_variant, &property_name))
+            resolve_property_mut(parent_variant, &property_name)
         }
     }
 }
@@ -106,11 +106,16 @@ fn resolve_array_mut(v: &mut Variant, indices: Vec<Variant>) -> Result<&mut Vari
     }
 }
 
-fn resolve_property_mut<'a>(v: &'a mut Variant, property_name: &BareName) -> &'a mut Variant {
+fn resolve_property_mut<'a>(
+    v: &'a mut Variant,
+    property_name: &BareName,
+) -> Result<&'a mut Variant, RuntimeError> {
     match v {
-        Variant::VUserDefined(boxed_user_defined_value) => boxed_user_defined_value
+        Variant::VUserDefined(boxed_user_defined_value) => Ok(boxed_user_defined_value
             .get_mut(property_name)
-            .expect("Property not defined, linter should have caught this"),
-        _ => panic!("Expected user defined type, found {:?}", v),
+            .expect("Property not defined, linter should have caught this")),
+        // the DIM of this record has not been executed (it sits in a branch
+        // that was not taken): the record has no elements yet
+        _ => Err(RuntimeError::ElementNotDefined),
     }
 }
